@@ -206,6 +206,9 @@ func runHistory(s kvs.Storage, cfg config, base time.Time) ([]hist.Rec, map[stri
 							exp = c.seenVer[c.rng.Intn(len(c.seenVer))]
 						}
 					}
+					if same {
+						val = c.lastVal[key] // a CAS that re-writes the bytes it has read: still a write, still a new version
+					}
 					call := now()
 					r, err := s.CasByVersion(ctx, kvs.Record{Key: key, Value: []byte(val), Version: exp})
 					ret := now()
@@ -214,6 +217,7 @@ func runHistory(s kvs.Storage, cfg config, base time.Time) ([]hist.Rec, map[stri
 					if e == hist.ENil {
 						out.Ver = r.Version
 						c.lastVer[key] = r.Version
+						c.lastVal[key] = val
 						note(r.Version)
 					} else if e == hist.EOther {
 						out.Msg = err.Error()
